@@ -132,11 +132,16 @@ def _external_table():
         'unicodedata.bidirectional': __import__('unicodedata').bidirectional, 'unicodedata.category': __import__('unicodedata').category,
         'warnings.warn': (lambda *a, **k: None),
         'datetime.datetime': __import__('datetime').datetime, 'datetime.date': __import__('datetime').date,
+        **{f'math.{n_}': getattr(__import__('math'), n_) for n_ in ('isfinite', 'isinf', 'isnan', 'floor', 'ceil', 'trunc', 'fabs', 'copysign', 'sqrt', 'log10', 'log', 'pow',
+                                                                     'gcd', 'fmod', 'modf', 'frexp', 'ldexp')},
+        **{f'unicodedata.{n_}': getattr(__import__('unicodedata'), n_) for n_ in ('name', 'east_asian_width', 'normalize', 'combining', 'decimal', 'digit', 'numeric',
+                                                                                   'mirrored', 'lookup')},
+        'textwrap.dedent': __import__('textwrap').dedent, 'textwrap.indent': __import__('textwrap').indent,
     }
 
 
 EXTERNAL = _external_table()
-EXTERNAL_CONSTANTS = {'datetime.MAXYEAR': 9999, 'datetime.MINYEAR': 1, 'sys.maxunicode': 0x10FFFF, 'sys.maxsize': 2 ** 63 - 1}
+EXTERNAL_CONSTANTS = {'math.inf': float('inf'), 'math.nan': float('nan'), 'math.pi': 3.141592653589793, 'math.e': 2.718281828459045, 'datetime.MAXYEAR': 9999, 'datetime.MINYEAR': 1, 'sys.maxunicode': 0x10FFFF, 'sys.maxsize': 2 ** 63 - 1}
 HIGHER_ORDER = {'itertools.takewhile', 'itertools.dropwhile', 'itertools.accumulate', 'functools.reduce'}
 
 
@@ -1016,7 +1021,7 @@ class Interp(MiniEval):
                 return callee(*args, **kwargs)
             except (ValueError, OverflowError, ZeroDivisionError) as x:
                 if concrete and getattr(callee, '__module__', None) in ('builtins', 'datetime', 'unicodedata', 'math'):
-                    raise Raised(type(x).__name__)   # chr(0x110000), int('x', 16), divmod(1, 0) on concrete operands
+                    raise Raised('KeyError' if isinstance(x, KeyError) else type(x).__name__)   # chr(0x110000), int('x', 16), divmod(1, 0) on concrete operands
                 raise
         raise Unsupported(f'call of {text or callee!r}')
 
